@@ -22,6 +22,7 @@ def run(rep, fb, tier):
     from ..rules import pybind as _pb, pyrules as _pr2
     _pb.rule_py_bindings(rep)
     _pr2.rule_py_call_signature(rep)
+    _pr2.rule_py_isinstance_shadow(rep)
     from ..rules import lints as _lx
     _lx.rule_whole_token(rep, fb)
     from ..rules import lints as _lz
